@@ -14,16 +14,9 @@ import YashModel.Pipe.Fds
 import YashModel.Pipe.File
 import YashModel.Pipe.Wake
 import YashModel.Pipe.Chain
+import YashModel.Pipe.Ops
 open YashModel YashModel.Pipe YashModel.Proto
 
-abbrev Byte := Nat
-
-def cfg : Cfg := Cfg.real
-
-def hashBytes (bs : List Byte) : Nat := bs.foldl (fun h b => (h * 31 + b + 1) % 1000003) 7
-
-/-- data of the write operation at position `i` of an operation sequence -/
-def opData (i n : Nat) : List Byte := (List.range n).map fun j => (i * 7 + j * 13 + 1) % 251
 
 def alpha (base i : Nat) (m : Nat) : Byte := base + (i * m + i / 26) % 26
 
@@ -39,6 +32,11 @@ def payload (n pat per nl : Nat) : List Byte :=
       | 6 => if i % 17 = 5 then 255 else if i % 23 = 11 then 0 else alpha 97 i 7
       | 5 => if n = i + nl + 1 ∨ i % 5 = 2 then 32 else if i % 11 = 7 then 9 else if i % 13 = 5 then 10
              else alpha 97 i 7
+      | 7 =>
+        let body := n - nl
+        if body - body % 3 ≤ i then 122
+        else if (i / 3) % 10 = 9 then [10, 195, 169].getD (i % 3) 0
+        else [230, 157, 177].getD (i % 3) 0
       | _ => alpha 97 i 7
 
 def kv (ws : List String) (k : String) : Option String :=
@@ -48,18 +46,6 @@ def kvNat (ws : List String) (k : String) : Nat := ((kv ws k).bind (·.toNat?)).
 
 /-! ### operation sequences -/
 
-inductive Op where
-  | openFd (r w : Bool)
-  | dwrite (k n : Nat)
-  | dread (k n : Nat)
-  | selBad
-  | setNb (k : Nat) (b : Bool)
-  | close (k : Nat)
-  | write (k n : Nat)
-  | read (k n : Nat)
-  | sel
-  | park (k : Nat) (r w : Bool)
-  | poll (j : Nat)
 
 def parseOp (t : String) : Option Op :=
   match words t with
@@ -81,172 +67,6 @@ def parseOp (t : String) : Option Op :=
   | ["poll", j] => do pure (.poll (← j.toNat?))
   | _ => none
 
-structure OpState where
-  fifo : Fifo Byte := {}
-  slots : List (Option Ofd) := []
-  accepted : List Byte := []
-  delivered : List Byte := []
-  /-- the FIFO's waker sets and the wakers that have fired -/
-  wk : Wakers := {}
-  /-- `select` calls that returned `Pending` and are kept alive: (waker id, slot, in reader set, in writer set) -/
-  parked : List (Nat × Nat × Bool × Bool) := []
-  nextId : Nat := 0
-
-def slotGet (st : OpState) (k : Nat) : Option Ofd := (st.slots.getD k none)
-
-def showErr : Errno → String
-  | .EBADF => "EBADF" | .EAGAIN => "EAGAIN" | .EPIPE => "EPIPE" | .ENXIO => "ENXIO"
-
-def idList (l : List Nat) : String :=
-  if l.isEmpty then "-" else ",".intercalate (l.map toString)
-
-/-- runs one operation: (result text, new state, spec verdict for this step) -/
-def opStep (st : OpState) (i : Nat) : Op → String × OpState × Option String
-  | .openFd r w =>
-    match st.fifo.openNonblock r w with
-    | none => ("ENXIO", st, if st.fifo.readers == 0 then none else some "enxio-with-readers")
-    | some f =>
-      (s!"fd{st.slots.length}",
-        { st with fifo := f, slots := st.slots ++ [some { readable := r, writable := w, nonblocking := true }] }, none)
-  | .setNb k b =>
-    match slotGet st k with
-    | none => ("nofd", st, none)
-    | some o => ("ok", { st with slots := st.slots.set k (some { o with nonblocking := b }) }, none)
-  | .close k =>
-    match slotGet st k with
-    | none => ("nofd", st, none)
-    | some o =>
-      -- the harness drops the `select` futures parked on this slot before it closes the descriptor
-      let gone := (st.parked.filter fun e => e.2.1 == k).map (·.1)
-      let wk0 : Wakers := { pendR := st.wk.pendR.filter (!gone.contains ·), pendW := st.wk.pendW.filter (!gone.contains ·),
-                            fired := st.wk.fired.filter (!gone.contains ·) }
-      let (f, wk') := wfClose st.fifo wk0 o.readable o.writable
-      ("ok", { st with fifo := f, wk := wk', parked := st.parked.filter (fun e => e.2.1 != k), slots := st.slots.set k none }, none)
-  | .write k n =>
-    match slotGet st k with
-    | none => ("nofd", st, none)
-    | some o =>
-      let buf := opData i n
-      let (res, f, wk') := o.sysWriteW cfg st.fifo st.wk buf
-      let written := f.content.length - st.fifo.content.length
-      let txt := match res with
-        | .ok m => s!"ok {m}"
-        | .pending => "pend"
-        | .err e => showErr e
-      -- Spec: the system call as a whole (non-blocking descriptors: exactly one `poll_write`)
-      let verdict :=
-        if n = 0 then (if res == .ok 0 then none else some "empty-write")
-        else if !o.writable then (if res == .err .EBADF then none else some "write-on-reader")
-        else if o.nonblocking then
-          let wres := match res with
-            | .ok m => WRes.wrote m
-            | .err .EPIPE => WRes.epipe
-            | _ => WRes.block
-          if specWriteOk cfg st.fifo n wres f buf then none else some "write-law"
-        else
-          -- blocking descriptor: everything is written unless the pipe filled up (then pending, full)
-          match res with
-          | .ok m => if m == n then none else some "blocking-write-short"
-          | .pending => if f.content.length == cfg.pipeSize || (n ≤ cfg.pipeBuf && written == 0) then none
-                        else some "blocking-write-pending-with-room"
-          | .err .EPIPE => if st.fifo.readers == 0 then none else some "epipe-with-readers"
-          | .err _ => some "blocking-write-error"
-      (txt, { st with fifo := f, wk := wk', accepted := st.accepted ++ buf.take written }, verdict)
-  | .read k n =>
-    match slotGet st k with
-    | none => ("nofd", st, none)
-    | some o =>
-      let (res, bs, f, wk') := o.sysReadW st.fifo st.wk n
-      let txt := match res with
-        | .ok m => s!"ok {m}:{hashBytes bs}"
-        | .pending => "pend"
-        | .err e => showErr e
-      let verdict :=
-        if !o.readable then (if res == .err .EBADF then none else some "read-on-writer")
-        else
-          let blocked := match res with | .ok _ => false | _ => true
-          if specReadOk st.fifo n blocked bs.length then none else some "read-law"
-      (txt, { st with fifo := f, wk := wk', delivered := st.delivered ++ bs }, verdict)
-  | .dwrite k n =>
-    -- `OpenFileDescription::write`: one `poll_write`; `Pending` → EAGAIN
-    match slotGet st k with
-    | none => ("nofd", st, none)
-    | some o =>
-      let buf := opData i n
-      let (res, f, wk') := o.pollWriteW cfg st.fifo st.wk buf
-      let written := f.content.length - st.fifo.content.length
-      let txt := match res with
-        | .ok m => s!"ok {m}"
-        | .pending => "EAGAIN"
-        | .err e => showErr e
-      let verdict :=
-        if !o.writable then (if res == .err .EBADF then none else some "write-on-reader")
-        else
-          let wres := match res with
-            | .ok m => WRes.wrote m
-            | .err .EPIPE => WRes.epipe
-            | _ => WRes.block
-          if specWriteOk cfg st.fifo n wres f buf then none else some "write-law"
-      (txt, { st with fifo := f, wk := wk', accepted := st.accepted ++ buf.take written }, verdict)
-  | .dread k n =>
-    match slotGet st k with
-    | none => ("nofd", st, none)
-    | some o =>
-      let (res, bs, f, wk') := o.sysReadW st.fifo st.wk n
-      let txt := match res with
-        | .ok m => s!"ok {m}:{hashBytes bs}"
-        | .pending => "EAGAIN"
-        | .err e => showErr e
-      let verdict :=
-        if !o.readable then (if res == .err .EBADF then none else some "read-on-writer")
-        else
-          let blocked := match res with | .ok _ => false | _ => true
-          if specReadOk st.fifo n blocked bs.length then none else some "read-law"
-      (txt, { st with fifo := f, wk := wk', delivered := st.delivered ++ bs }, verdict)
-  | .park k r w =>
-    -- `select` without timeout on slot `k`, polled once with a fresh waker and kept alive if pending
-    match slotGet st k with
-    | none => ("nofd", st, none)
-    | some o =>
-      let id := st.nextId
-      match wfSelect cfg o st.fifo st.wk r w id with
-      | (some (rr, rw), _) => (s!"sel R={if rr then toString k else "-"} W={if rw then toString k else "-"}", st, none)
-      | (none, wk') => (s!"parked {id}", { st with wk := wk', parked := st.parked ++ [(id, k, r, w)], nextId := id + 1 }, none)
-  | .poll j =>
-    -- the parked `select` number `j` is polled again (its wake flag is reset first)
-    match st.parked.find? (·.1 == j) with
-    | none => ("nopark", st, none)
-    | some (_, k, r, w) =>
-      match slotGet st k with
-      | none => ("nopark", st, none)
-      | some o =>
-        let wk0 : Wakers := { st.wk with fired := st.wk.fired.filter (· != j) }
-        match wfSelect cfg o st.fifo wk0 r w j with
-        | (some (rr, rw), _) =>
-          -- completed: the future (and its waker cell) is dropped, registrations left behind are dead
-          (s!"sel R={if rr then toString k else "-"} W={if rw then toString k else "-"}",
-            { st with wk := { wk0 with pendR := wk0.pendR.filter (· != j), pendW := wk0.pendW.filter (· != j) },
-                      parked := st.parked.filter (·.1 != j) }, none)
-        | (none, wk') => (s!"parked {j}", { st with wk := wk' }, none)
-  | .selBad => ("sel EBADF", st, none)
-  | .sel =>
-    let idx := List.range st.slots.length
-    let rs := idx.filter fun k => match slotGet st k with
-      | some o => !o.readable || st.fifo.readyR
-      | none => false
-    let ws := idx.filter fun k => match slotGet st k with
-      | some o => !o.writable || st.fifo.readyW cfg
-      | none => false
-    (s!"sel R={idList rs} W={idList ws}", st, none)
-
-/-- Spec of the wake-up half, evaluated on the model's state after every operation: a parked `select`
-    whose waker has not fired waits for descriptors that are really not ready -/
-def lostWakeup (st : OpState) : Bool :=
-  st.parked.any fun (id, k, r, w) =>
-    !st.wk.fired.contains id &&
-      match slotGet st k with
-      | none => false
-      | some o => (r && (!o.readable || st.fifo.readyR)) || (w && (!o.writable || st.fifo.readyW cfg))
 
 def runOps (line : String) : String :=
   let parts := (splitTrim line ";").filter (· ≠ "")
@@ -641,6 +461,9 @@ def rpChar (cs : Nat) : List UInt8 :=
   match cs with
   | 2 => utf8 [Char.ofNat 0xE9]
   | 3 => utf8 [Char.ofNat 0x6771]
+  | 5 => [92, 10]
+  | 6 => [92, 92]
+  | 7 => [92, 120]
   | _ => utf8 [Char.ofNat 0x1F600]
 
 def runRp (ws : List String) : String :=
